@@ -55,6 +55,7 @@ class Shape:
         self.tri = []    # triangle surface (subdivision / border possible)
         self.spent = []  # the object went through SurfaceSubdivision (its face_corners are gone)
         self.intarr = []
+        self.hexa = []   # volume mesh with hexahedral cells (only the medit loader reads those back)
 
     def add(self, n, kind, tri=False, intarr=False):
         self.n.append(n)
@@ -62,6 +63,7 @@ class Shape:
         self.tri.append(tri)
         self.spent.append(False)
         self.intarr.append(intarr)
+        self.hexa.append(False)
         return len(self.n) - 1
 
     def meshes(self):
@@ -76,16 +78,22 @@ def gen_producer(rng, sh, ops, small=True):
     r = rng.random()
     if r < 0.30:
         # caller array + from_arrays
-        style = rng.choice(["cloud", "line", "tris", "tet", "tris"])
-        n = {"cloud": rng.randint(1, 5), "line": rng.randint(2, 5), "tris": rng.randint(3, 6), "tet": rng.randint(4, 5)}[style]
+        style = rng.choice(["cloud", "line", "tris", "tet", "tris", "hex", "cloud", "line"])
+        n = {"cloud": rng.randint(1, 5), "line": rng.randint(2, 5), "tris": rng.randint(3, 6), "tet": rng.randint(4, 5),
+             "hex": rng.choice([8, 12, 12])}[style]
         if sh.arrays() and rng.random() < 0.25:
             a = rng.choice(sh.arrays())      # a second mesh over the same caller array
             n = sh.n[a]
+            if style == "hex" and n not in (8, 12):
+                style = "tet" if n >= 4 else "cloud"
             if n < 4:
                 style = "cloud" if n < 2 else ("line" if n < 3 else rng.choice(["line", "tris"]))
         else:
             isint = rng.random() < 0.12
             rows = distinct_pts(rng, n)
+            if style == "hex":     # stacked unit cubes, sheared by a dyadic offset
+                sx, sy = fr(dy(rng, -2, 2)), fr(dy(rng, -2, 2))
+                rows = [[x + sx * z, y + sy * z, float(z)] for z in range(n // 4) for (x, y) in ((0., 0.), (1., 0.), (1., 1.), (0., 1.))]
             if isint:
                 rows = [[float(int(c * 4)) for c in p] for p in rows]
             ops.append(["arr", rows, "i" if isint else "f"])
@@ -101,8 +109,13 @@ def gen_producer(rng, sh, ops, small=True):
         elif style == "tet":
             C = [[0, 1, 2, 3]] + ([[1, 2, 3, 4]] if n >= 5 else [])
             kind = 3
+        elif style == "hex":
+            C = [[4 * k + j for j in range(8)] for k in range(n // 4 - 1)]
+            kind = 3
         ops.append(["from_arrays", a, E, F, C])
-        return sh.add(n, kind, tri=(kind == 2))
+        o = sh.add(n, kind, tri=(kind == 2))
+        sh.hexa[o] = style == "hex"
+        return o
     if r < 0.45:
         N = rng.choice([3, 3, 4, 5, 6])
         nc = rng.choice([1, 1, 1, 2])
@@ -110,7 +123,15 @@ def gen_producer(rng, sh, ops, small=True):
         ops.append(["ring", N, nc, op, rng.randint(0, 24)])
         return sh.add(N * nc + 1 + (1 if op else 0), 2, tri=True)
     name = rng.choice(["triangle", "quad", "unit_grid", "tetrahedron", "cube", "octahedron", "flat_ring", "cylinder",
-                       "torus", "sphere_uv", "chain", "pointcloud", "triangle", "tetrahedron", "chain"])
+                       "torus", "sphere_uv", "chain", "pointcloud", "triangle", "tetrahedron", "chain", "hexa", "hexa",
+                       "pointcloud"])
+    if name == "hexa":
+        o0 = distinct_pts(rng, 1)[0]
+        e = rng.choice([1., 2., 0.5])
+        ops.append(["proc", name, [o0, [o0[0] + e, o0[1], o0[2]], [o0[0], o0[1] + 1., o0[2]], [o0[0], o0[1], o0[2] + 1.]]])
+        o = sh.add(8, 3)
+        sh.hexa[o] = True
+        return o
     if name == "triangle":
         ops.append(["proc", name, distinct_pts(rng, 3)])
         return sh.add(3, 2, tri=True)
@@ -183,17 +204,22 @@ def gen_case(rng, maxops=8):
         anyms = sh.meshes()
         r = rng.random()
         if r < 0.10:
-            m = rng.choice(anyms)
+            m = rng.choice([x for x in anyms if not sh.spent[x]] or anyms)
             ops.append(["copy", m, rng.random() < 0.4, rng.random() < 0.15])
-            sh.add(sh.n[m], sh.kind[m], sh.tri[m])
+            o = sh.add(sh.n[m], sh.kind[m], sh.tri[m])
+            sh.hexa[o] = sh.hexa[m]
         elif r < 0.24:
             cnt = rng.choice([1, 2, 2, 3])
-            sel = [rng.choice(anyms) for _ in range(cnt)]
+            pool = [x for x in anyms if not sh.spent[x]] or anyms
+            if rng.random() < 0.3 and any(sh.kind[x] == 3 for x in pool):
+                pool = [x for x in pool if sh.kind[x] == 3]      # volume with volume: mixed tet / hex meshes
+            sel = [rng.choice(pool) for _ in range(cnt)]
             if cnt >= 2 and rng.random() < 0.35:
                 sel[1] = sel[0]                           # the same mesh merged twice
             ops.append(["merge", sel])
             tot = None if any(sh.n[m] is None for m in sel) else sum(sh.n[m] for m in sel)
-            sh.add(tot, max(sh.kind[m] for m in sel), all(sh.tri[m] for m in sel) and all(sh.kind[m] == 2 for m in sel))
+            o = sh.add(tot, max(sh.kind[m] for m in sel), all(sh.tri[m] for m in sel) and all(sh.kind[m] == 2 for m in sel))
+            sh.hexa[o] = any(sh.hexa[m] for m in sel)
         elif r < 0.66:
             m = rng.choice(anyms)
             t = rng.choice(["translate", "translate", "translate", "rotate", "rotate", "scale", "scale", "scale_xyz",
@@ -248,8 +274,11 @@ def gen_case(rng, maxops=8):
             m = rng.choice(anyms)
             ext = {0: ["xyz", "mesh", "obj"], 1: ["mesh", "obj", "geogram_ascii"], 2: ["obj", "mesh", "off", "geogram_ascii"],
                    3: ["mesh", "tet", "geogram_ascii"]}[sh.kind[m]]
+            if sh.hexa[m]:
+                ext = ["mesh"]
             ops.append(["load", m, rng.choice(ext)])
-            sh.add(sh.n[m], sh.kind[m], sh.tri[m])
+            o = sh.add(sh.n[m], sh.kind[m], sh.tri[m])
+            sh.hexa[o] = sh.hexa[m]
         elif r < 0.93:
             c = [m for m in anyms if sh.tri[m] and sh.kind[m] == 2 and not sh.spent[m]]
             if c:
